@@ -231,6 +231,22 @@ _EXTRA_RULE = {
  "C05": " + panic values whose Error()/String() panic (typed nil error), SetPanicHandler between publishes, a nil subscribe option, option values shared between subscriptions",
  "C01": " + 46 types hitting all 32 shards (first/last shard favoured), an event type that is json.RawMessage itself and one published as a pointer, once handlers whose body swaps a registration of their own type, nil subscribe option",
 }
+# parts added in the third session (rounds 6 and 7, unexercised API, automatic mutants)
+_EXTRA_RULE3 = {
+ "C01": " + filter predicates typed by an interface the event type implements, and by `any`",
+ "C03": " + livechain03 (handlers of resumable subscriptions that publish while handling a live event, alone and as a ping-pong of two subscriptions, memory and SQLite stores: nothing may block)",
+ "C08": " + context-aware handlers must receive a context that can be cancelled whenever their publish context can, and that is cancelled when the handler cancels its publish + stress/seqcancel (a publisher waits for a busy Sequential handler's mutex while its context is cancelled: the handler must not be started for it)",
+ "C10": " + stores built with every construction option (logger, metrics hook, own HTTP client, timeout, construction context cancelled afterwards)",
+ "C12": " + offsets in an explicit SubscriptionStore of their own (WithSubscriptionStore before or after WithStore; the event store's own offset table must stay empty) + cancelresume (catch-up over the real SQLite store cancelled inside a page) + panicresume (the handler dies while event k is replayed) + livechain",
+ "C13": " + pubdeadnotify (a persistence error handler that publishes the next record on the same bus)",
+ "C14": " + every reopening is repeated without the automatic migration",
+ "C17": " + the error handler handed to New as WithUpcastErrorHandler; raw upcasters on typed source names over payloads followed by garbage",
+ "C18": " + a collection registered under an explicit entity type name (NewTypedCollectionWithType), Get checked against All via CompositeKey",
+ "C19": " + WithAutoTimestamp (alone, and before / after an explicit timestamp); the headers of every helper-built message are compared with what the options said",
+ "C20": " + injected append failures that hang until the persistence timeout return the context's error, more often under the OpenTelemetry adapter",
+}
+for _p, _t in _EXTRA_RULE3.items():
+    _EXTRA_RULE[_p] = _EXTRA_RULE.get(_p, "") + _t
 for _p, _t in _EXTRA_RULE.items():
     PROPS[_p]["rule"] = (PROPS[_p].get("rule") or "") + _t
 PROPS["C19"]["rule"] = PROPS["C19"]["rule"] + _EXTRA_RULE["C18"]
